@@ -24,12 +24,12 @@ def T(name: str, k: str = "ok", n: int = 0, target: str = "", out: dict | None =
 
 
 def S(ref: str, req=(), tasks=None, join="AND", thr=0, cof=False, failp=True, mutex="", choice="",
-      parent="", owner="", enabled=None, ctx=None, region="", split=None) -> dict:
+      parent="", owner="", enabled=None, ctx=None, region="", split=None, lazy=False) -> dict:
     if tasks is None:
         tasks = [T(f"{ref}.1")]
     return {"ref": ref, "req": sorted(req), "tasks": tasks, "join": join, "thr": thr, "cof": cof,
             "failp": failp, "mutex": mutex, "choice": choice, "parent": parent, "owner": owner,
-            "enabled": enabled, "ctx": ctx or {}, "region": region, "split": dict(split or {})}
+            "enabled": enabled, "ctx": ctx or {}, "region": region, "split": dict(split or {}), "lazy": lazy}
 
 
 def P(name: str, stages: list[dict], max_jumps: int = -1, **kw) -> dict:
@@ -102,6 +102,17 @@ def extra_family() -> list[dict]:
     return fam
 
 
+def lazy_family() -> list[dict]:
+    """stages whose tasks are built by the stage's builder at planning time (no task rows before the plan commit):
+    the claim -> plan crash window is repaired by the zombie re-plan"""
+    fam = []
+    fam.append(P("lazy1", [S("a", lazy=True, tasks=[T("a.1"), T("a.2")])]))
+    fam.append(P("lazychain", [S("a"), S("b", ["a"], lazy=True, tasks=[T("b.1"), T("b.2")]), S("c", ["b"])]))
+    fam.append(P("lazyjoin", [S("a"), S("b", ["a"], lazy=True), S("c", ["a"]), S("d", ["b", "c"], lazy=True)]))
+    fam.append(P("lazyfail", [S("a", lazy=True), S("b", ["a"], lazy=True, tasks=[T("b.1", "terminal")]), S("c", ["a"])]))
+    return fam
+
+
 def split_family() -> list[dict]:
     """OR-split (WCP-6) with and without the paired OR-join (WCP-7)"""
     fam = []
@@ -159,7 +170,7 @@ def control_family() -> list[dict]:
 
 def all_programs() -> list[dict]:
     return [with_outputs(p) for p in core_family() + extra_family() + control_family() + synthetic_family()
-            + operator_family() + region_family() + split_family()]
+            + operator_family() + region_family() + split_family() + lazy_family()]
 
 
 # ----------------------------------------------------------------------------------------------
@@ -267,8 +278,13 @@ def register_builder(prog: dict) -> None:
             if not stage.context.get("_lazy"):
                 return []
             names = list((stage.context.get("_script") or {}).keys())
-            return [TaskExecution.create(name=n, implementing_class=task_class_name(n), stage_start=(j == 0),
-                                         stage_end=(j == len(names) - 1)) for j, n in enumerate(names)]
+            out = []
+            for j, n in enumerate(names):
+                te = TaskExecution.create(name=n, implementing_class=task_class_name(n), stage_start=(j == 0),
+                                          stage_end=(j == len(names) - 1))
+                te.id = "TL%03d-%s" % (j, n)     # creation-ordered ids (tasks are read back ORDER BY id)
+                out.append(te)
+            return out
 
         def before_stages(self, stage, graph) -> None:
             for sd in self._kids(stage, "BEFORE"):
